@@ -143,10 +143,10 @@ Theorem C11_dup_and_unreferenced : forall isdigit int_of fx, O_footnotes fx ->
 Proof. exact warnings_exact. Qed.
 Print Assumptions C11_dup_and_unreferenced.
 
-(* a duplicate definition changes nothing in the registries but the warning list: the other
+(* a duplicate definition (an earlier footnote carries the label) changes nothing in the registries but the warning list: the other
    footnotes are processed as if it were not there *)
 Theorem C11_duplicate_is_inert : forall isdigit g l b,
-  mem_str l (g_nameids g) = true ->
+  existsb (fun f => str_eqb l (f_label f)) (g_footnotes g ++ g_autofootnotes g) = true ->
   render_footnote_reference isdigit g l b =
   ({| g_nameids := g_nameids g; g_autofootnotes := g_autofootnotes g; g_footnotes := g_footnotes g;
       g_autofootnote_refs := g_autofootnote_refs g; g_footnote_refs := g_footnote_refs g;
